@@ -194,6 +194,12 @@ CLAIMED = {
    note="Library calls themselves are judged by C05/C08/C15; CLI run with the synchronous dask scheduler; ArakawaC is not reachable from the CLI.",
    ref="5 C20"),
 }
+HARVEST = {pid: " Thorough tier also runs the repository's whole test suite under a recording plugin and has TLC judge every recorded call of "
+                  + what + " with the same trace specification (reported under this property)."
+           for pid, what in {"C03": "utils.ravel_dimensions / wind_dimension (all Convention.ravel / wind traffic)",
+                             "C07": "masking.blur_mask / smear_mask (all make_clip_mask traffic)",
+                             "C12": "operations.depth.ocean_floor", "C13": "operations.depth.normalize_depth_variables",
+                             "C17": "utils.format_time_units_for_ems", "C20": "cli.utils.bounds_argument / geometry_argument"}.items()}
 PENDING_REASON = "check not built yet in this round (specification and binding under construction; see DESIGN.md section 13)"
 props = [json.loads(l) for l in (V / "properties.jsonl").read_text().splitlines() if l.strip()]
 checks, na = [], []
@@ -208,7 +214,7 @@ for p in props:
             "evidence_file": f"evidence/{pid}.json",
             "replay_cmd_template": f"./check {pid} --replay {{path}}",
             "engine": "tlc+harness",
-            "level_claimed": {"category": "model_checking", "text": c["text"], "design_ref": c["ref"]},
+            "level_claimed": {"category": "model_checking", "text": c["text"] + HARVEST.get(pid, ""), "design_ref": c["ref"]},
             "level_note": c["note"],
             "technique": c.get("technique", TECH),
         })
@@ -219,7 +225,9 @@ m = {
  "setup_cmd": "./setup.sh",
  "hooks": {
    "guard": "EMSARRAY_VERIF_TRACE",
-   "enable": "no source hooks are needed: the abstract state is observable through the public API; checks import /repo/src through /venv's editable install",
+   "enable": "no source hooks in /repo: the abstract state is observable through the public API; checks import /repo/src through /venv's editable install. "
+             "EMSARRAY_VERIF_TRACE=<dir> switches on harness/harvest_plugin.py (a pytest plugin living in /verif, loaded with -p) which wraps public functions "
+             "from the outside while the repository's own tests run and records their calls for the trace specifications; unset, nothing is wrapped",
    "baseline_off_cmd": "cd /repo && /venv/bin/python -m pytest -ra -q -p no:cacheprovider --timeout=900 --continue-on-collection-errors",
    "source_commits": [],
    "add_only": True,
